@@ -43,6 +43,8 @@ def _feasible(pc, extra, timeout_ms) -> bool:
     t = time.time()
     s = _solver(timeout_ms)
     for c in pc:
+        if z3.is_quantifier(c):
+            continue          # pruning only: dropping a premise can only keep more paths (sound), and keeps these checks cheap
         s.add(c)
     if extra is not None:
         s.add(extra)
